@@ -69,8 +69,19 @@ class PGen:
             elif k == "while":
                 v = "n%d" % depth
                 out.append({"k": "set", "var": v, "val": 0})
-                out.append({"k": "while", "var": v, "limit": d.randint(1, 2, key, s, "lim"), "body": [self.user(), self.bot()] + ([{"k": "set", "var": "x0", "val": d.randint(0, 3, key, s, "wv")}] if d.chance(0.3, key, s, "ws") else [])
-                            + (self.block(depth + 1, (key, s, "wb"), False) if depth < 2 and d.chance(0.3, key, s, "wblk") else [])})
+                shape = d.weighted([("own-user-step", 3), ("waits-in-subflow", 2 if len(self.subflows) < 3 else 0)], key, s, "wshape")
+                if shape == "waits-in-subflow":
+                    # the loop's only waiting statement sits in a called subflow: between two calls from the same call site
+                    # there are only statements that slide (the counter increment, the loop condition, maybe a set / if)
+                    name = "sub%d" % len(self.subflows)
+                    self.subflows.append(None)
+                    sub_body = ([self.bot()] if d.chance(0.5, key, s, "wsb") else []) + [self.user()] + ([self.bot()] if d.chance(0.5, key, s, "wsa") else [])
+                    self.subflows[int(name[3:])] = {"name": name, "body": sub_body}
+                    wbody = [{"k": "do", "name": name}] + ([{"k": "set", "var": "x0", "val": d.randint(0, 3, key, s, "wv")}] if d.chance(0.4, key, s, "ws") else [])
+                else:
+                    wbody = [self.user(), self.bot()] + ([{"k": "set", "var": "x0", "val": d.randint(0, 3, key, s, "wv")}] if d.chance(0.3, key, s, "ws") else []) \
+                        + (self.block(depth + 1, (key, s, "wb"), False) if depth < 2 and d.chance(0.3, key, s, "wblk") else [])
+                out.append({"k": "while", "var": v, "limit": d.randint(1, 3, key, s, "lim"), "body": wbody})
             elif k == "do":
                 name = "sub%d" % len(self.subflows)
                 self.subflows.append(None)
